@@ -184,7 +184,7 @@ class FixedMarginBusiness(Sector):
         self.LabourInputName = labour_input_name
         self.OutputName = output_name
         self.AddVariable('SUP_' + output_name, 'Supply of goods', '')
-        self.AddVariable('PROF', 'Profits', 'SUP_GOOD - DEM_' + labour_input_name)
+        self.AddVariable('PROF', 'Profits', 'SUP_' + output_name + ' - DEM_' + labour_input_name)
         # The labour demand variable must exist from the start, so that the labour market finds it
         # whatever the order in which sectors were declared; its equation is filled in later.
         self.AddVariable('DEM_' + labour_input_name, 'Demand for labour', '')
